@@ -1459,7 +1459,8 @@ int ex_command(char *ln)
 		verif_int(sb, "lvl", verif_lvl);
 		verif_int(sb, "ret", ret);
 		verif_int(sb, "quit", xquit);
-		ex_verif_state(sb);
+		if (!getenv("NEATVI_VERIF_LIGHT"))
+			ex_verif_state(sb);
 		verif_emit(sb);
 	}
 #endif
